@@ -1129,7 +1129,18 @@ class Runner:
         # histogram of what happened
         ps = parse.split(" | ")
         if parse.startswith("ok") and len(ps) >= 3:
-            nlog, nlist = len(ps[1].split()), len(ps[2].split())
+            hyp = ps[0].split()[3] == "1"
+            # how much of the tested population the theorem `emitdata_image_ev` covers
+            self.counts["theorem_hypotheses_hold" if hyp else "theorem_hypotheses_fail"] = \
+                self.counts.get("theorem_hypotheses_hold" if hyp else "theorem_hypotheses_fail", 0) + 1
+            if not hyp and nswitch == 0:
+                self.counts["hyp_fail_without_union_switch"] = self.counts.get("hyp_fail_without_union_switch", 0) + 1
+                ck.sample({"hypotheses of emitdata_image_ev fail without a union switch": replay}, limit=12)
+            # the cursor list must be the list built from the head (initadd_cursor_eq applies)
+            if len(ps) >= 4 and ps[2].strip() != ps[3].strip() and nswitch == 0:
+                ck.violation(dict(replay, kind="cursor", what="searching from p->last gives a different list than "
+                                  "searching from the head", cursor=ps[2][:400], head=ps[3][:400]), nofail=True)
+            nlog, nlist = len([e for e in ps[1].split() if not e.startswith("c")]), len(ps[2].split())
             h = self.stats.setdefault("overrides", {})
             if nlist < nlog:
                 h["entries-replaced"] = h.get("entries-replaced", 0) + 1
